@@ -268,8 +268,21 @@ def oracle_resolve(name):
 
 
 def _decode(data, name, errors):
+    """"The bytes decode without error under this name": the name must be a TEXT ENCODING this Python knows, and its decoder must accept
+    the bytes. For the empty byte string CPython's `str(b"", name)` returns "" without ever looking the name up (so it "succeeds" for
+    'nosuch', 'hex', 'undefined', ...); the statement is evaluated with the codec's own decoder instead, which is what `str()` consults
+    for every non-empty input."""
     try:
-        return str(data, name, errors)
+        info = codecs.lookup(name)
+    except Exception:
+        return None
+    if not getattr(info, "_is_text_encoding", True):
+        return None
+    try:
+        if data:
+            return str(data, name, errors)
+        out = info.decode(data, errors)[0]
+        return out if isinstance(out, str) else None
     except Exception:
         return None
 
@@ -816,6 +829,34 @@ def edge_cases():
     for s in ["", "abc", "<meta charset='koi8-r'>x", "\ufeffx"]:
         for h in (True, False):
             out.append(dict(markup_str=s, is_html=h, known=[], user=[], exclude=[], override=[], stream="edge"))
+    return out
+
+
+def empty_after_bom_cases():
+    """Documents that are empty once the byte-order mark is stripped, x candidate names from every source that are unknown, python-specific,
+    not text encodings, always-failing, or real. The first candidate that IS a text encoding accepting the empty input must win."""
+    out = []
+    boms = [b"\xef\xbb\xbf", b"\xff\xfe", b"\xfe\xff", b"\xff\xfe\x00\x00", b"\x00\x00\xfe\xff"]
+    names = ["nosuch", "mbcs", "oem", "x-unknown", "base64", "rot13", "hex", "zlib", "bz2", "quopri", "uu", "undefined", "string-escape",
+             "idna", "punycode", "unicode_escape", "utf-7", "charmap", "koi8-r", "ascii", "ASCII", "utf-16", "UTF-8", "Latin-1", "macintosh", "X-SJIS", "u-tf8", ""]
+    for b in boms:
+        for n in names:
+            for where in ("known", "user", "known+user", "exclude", "override"):
+                c = dict(markup_hex=b.hex(), is_html=(len(n) % 2 == 0), known=[], user=[], exclude=[], override=[], stream="empty-after-bom")
+                if where == "known":
+                    c["known"] = [n]
+                elif where == "user":
+                    c["user"] = [n]
+                elif where == "known+user":
+                    c["known"], c["user"] = ["no-such-codec"], [n, "hex"]
+                elif where == "override":
+                    c["override"] = [n]
+                else:
+                    c["known"], c["exclude"] = [n], [n.upper(), "utf-8"]
+                c["soup"] = not c["user"] and not c["override"] and len(c["known"]) <= 1
+                c["builder"] = not c["override"] and len(c["known"]) <= 1 and len(c["user"]) <= 1
+                c["is_html"] = c["is_html"] or c["soup"] or c["builder"]
+                out.append(c)
     return out
 
 
@@ -1386,7 +1427,9 @@ def run(ctx: Ctx):
                        "encoding names are ASCII strings (str.lower() is modelled on ASCII letters)",
                        "smart_quotes_to=None (the substitution hook of _convert_from is property C19's)",
                        "int(len(markup) * 0.05) = len(markup) // 20 for the document sizes used",
-                       "the codec oracle shipped to the model is the real codecs' behaviour on this case's BOM-stripped bytes",
+                       "the codec oracle shipped to the model (and used by the direct oracle) is the real codecs' behaviour on this case's BOM-stripped bytes; "
+                       "for the EMPTY byte string it is the codec's own decoder (codecs.lookup(name).decode, text encodings only), not str(b'', name), which "
+                       "never looks the name up",
                        "for documents in UTF-16/UTF-32 and for mutated declarations the 'declared' input of the oracle is find_declared_encoding itself (no independent ground truth)"]
     if bd.chardet_module is not None:
         ctx.notes.append("chardet-like module present: disabled in-process for this run")
@@ -1413,6 +1456,11 @@ def run(ctx: Ctx):
             n -= chunk
             k += 1
     fixed = [("edge", edge_cases()), ("alias", alias_cases())]
+    eb = empty_after_bom_cases()
+    for i in range(0, len(eb), 175):
+        fixed.append(("empty-after-bom", eb[i:i + 175]))
+    ctx.exhaustive_parts.append("documents empty after their byte-order mark: every BOM x 28 names (unknown / not a text encoding / always failing / "
+                                "python-specific / real) x source (known definite, user, override, excluded)")
     bc = both_cases(ctx.seed, ctx.thorough)
     for i in range(0, len(bc), 65):
         fixed.append(("both", bc[i:i + 65]))
